@@ -1206,6 +1206,7 @@ def _tables(ctx, rid: str, tools, kind: str, counter: str, fields=ALL, make_ops=
                 resolver = make_resolver(ctx, u, ops, skip=("aiter", "iter", "borrow", "anext", "awaitify"), coroutines=True)
             ops.fault_at = fault_at
             ops.flavour = getattr(cell, "flavour", "iterator")
+            ops.ran_from_entry = True
             env = _bind(ctx, u, ops, cell)
             if env is None:
                 return "skip", None, None
